@@ -82,7 +82,22 @@ func parseSegments(segments []*recordstore.Segment) ([]*parsedSegment, error) {
 		}
 	}
 
-	return parsed, err
+	// skip segments that cannot be parsed (i.e. segments whose writing was interrupted),
+	// in order not to hide the other ones.
+	n := 0
+	for _, p := range parsed {
+		if p != nil {
+			parsed[n] = p
+			n++
+		}
+	}
+	parsed = parsed[:n]
+
+	if len(parsed) == 0 && err != nil {
+		return nil, err
+	}
+
+	return parsed, nil
 }
 
 func urlScheme(ctx *gin.Context, trustedProxies conf.IPNetworks, encryption bool) string {
